@@ -185,3 +185,6 @@ def run(model, rep):
     gate_tree(model, rep, 'C10.GUARD', True, True, keep, lambda kind, name: True if (name in keep or (kind == 'Module' and name == 'f')) else None,
               'permission gates with renaming on, preserve=%s and __all__ = [\'f\', ...]' % keep, 'C10.GUARD|tree')
     rep.floor('C10.GUARD', 4)
+    from . import rename_e2e
+    rep.rule('C10.E2E', 'renaming end to end on probe modules with preserve lists: the listed names keep their spelling, everything else is still renamed consistently')
+    rename_e2e.run(model, rep, 'C10.E2E', only=('rename_locals with preserved names',))
